@@ -12,7 +12,9 @@
 
 static int R, NK;
 static char **kn; static int *khome;
-static const int64_t INTVAL = -9876543210LL;
+/* the integer stored through putint / read through getint changes from segment to segment and includes the extremes of int64 */
+static const int64_t IVALS[4] = {-9876543210LL, INT64_MIN, INT64_MAX, -1000000000000000000LL};
+static int64_t INTVAL = -9876543210LL;
 static size_t mkval(unsigned char *b, int v) {
     switch (v) {
     case 1: memcpy(b, "one", 4); return 4;
@@ -126,7 +128,7 @@ int main(int argc, char **argv) {
                 T = NULL;
             }
             if (!got) break;
-            vh_seg++; vh_step = 0;
+            vh_seg++; vh_step = 0; INTVAL = IVALS[vh_seg % 4];
             mark = vh_ledger_mark();
             if (inj_at || inj_from) {
                 /* constructor under allocation failure: NULL and nothing left allocated, or a working object */
